@@ -267,7 +267,7 @@ def step (st : St) (line : String) : St × Option String :=
       let v := match validate m with
         | .ok _ => "1"
         | .error _ => "0"
-      (st, some s!"m validates={v} {roundTrip st.bytes m}")
+      (st, some s!"m validates={v} {roundTrip st.bytes m} dbg={boolStr (debugMapOk m)}")
   | [] => (st, none)
   | _ => (st, some "bad-op")
 
